@@ -13,6 +13,7 @@ import BV.Drive.Recoder
 import BV.Drive.Dict
 import BV.Drive.Stream
 import BV.Drive.MetaBlock
+import BV.Drive.Fragment
 
 /-- line protocol: `<engine> <args…>` in, one canonical line out -/
 def dispatch (line : String) : String :=
@@ -26,6 +27,7 @@ def dispatch (line : String) : String :=
   | "multi" :: rest => BV.Drive.Multi.handle rest
   | "adapters" :: rest => BV.Drive.Adapters.handle rest
   | "hasher" :: "flm" :: rest => BV.Drive.MatchFinder.handle rest
+  | "hasher" :: "cbr" :: rest => BV.Drive.MatchFinder.handleCbr rest
   | "hasher" :: rest => BV.Drive.Hasher.handle rest
   | "recoder" :: rest => BV.Drive.Recoder.handle rest
   | "dict" :: rest => BV.Drive.Dict.handle rest
@@ -33,6 +35,7 @@ def dispatch (line : String) : String :=
   | "stream" :: rest => BV.Drive.Stream.handle rest
   | "ffi" :: rest => BV.Drive.FFI.handle rest
   | "metablock" :: rest => BV.Drive.MetaBlock.handle rest
+  | "fragment" :: rest => BV.Drive.Fragment.handle rest
   | _ => "bad-engine"
 
 partial def loop (h : IO.FS.Stream) (out : IO.FS.Stream) : IO Unit := do
